@@ -462,6 +462,48 @@ fn merge_into_empty<T: Num + UnsignedCountMinValue>(out: &mut Shards, tname: &st
     }
 }
 
+/// signed counter types under weights of both signs: the total counts |w|, the counters w; negative counters
+/// are written sign-extended to 8 bytes
+fn signed_negative<T: Num>(out: &mut Shards, rng: &mut Rng, tname: &str, budget: u64) {
+    let r = catch(std::panic::AssertUnwindSafe(|| {
+        out.next_run(&format!("cm-signed-{tname}"));
+        let (d, w, seed) = (3u8, 5u32, 9001u64);
+        let seeds = row_seeds(seed, d);
+        let mut sk = CountMinSketch::<T>::with_seed(d, w, seed);
+        out.ev(json!({"op":"CNew","id":0,"d":d,"w":w}));
+        let mut used = 0u64;
+        let chk = |sk: &CountMinSketch<T>, out: &mut Shards| {
+            let bytes = sk.serialize();
+            let (tot, mut table) = decode(&bytes);
+            if table.is_empty() {
+                table = vec![0; d as usize * w as usize];
+            }
+            let rt_same = CountMinSketch::<T>::deserialize_with_seed(&bytes, seed).map(|b| b.serialize() == bytes).unwrap_or(false);
+            out.ev(json!({"op":"CChkS","id":0,"table":table,"tot":if bytes.len() <= 16 { 0 } else { tot },"len":bytes.len(),
+                "img":bytes,"sh":refhash::seed_hash(seed).to_le_bytes().to_vec(),"rt_same":rt_same}));
+        };
+        chk(&sk, out);
+        for i in 0..40u64 {
+            let it = rng.below(12);
+            let mag = 1 + rng.below(3);
+            if used + mag > budget {
+                break;
+            }
+            used += mag;
+            let wt: i64 = if i % 3 == 0 { mag as i64 } else { -(mag as i64) };
+            sk.update_with_weight(it, T::of(wt as u64));
+            out.ev(json!({"op":"CUpdS","id":0,"x":it,"b":buckets(it, &seeds, w),"wt":wt,"tot":sk.total_weight().val()}));
+            if i % 5 == 4 {
+                chk(&sk, out);
+            }
+        }
+        chk(&sk, out);
+    }));
+    if let Err(e) = r {
+        out.ev(json!({"op":"Panic","in":"scenario","key":e.split(": ").next().unwrap_or(""),"msg":e}));
+    }
+}
+
 /// the same for the 64-bit types, on limbs
 fn saturate_wide<T: WideNum>(out: &mut Shards, tname: &str) {
     let r = catch(std::panic::AssertUnwindSafe(|| {
@@ -562,6 +604,10 @@ pub fn record(args: &Args) {
     edge_scaling::<u8>(&mut out, "u8", u8::MAX as u64);
     edge_scaling::<u16>(&mut out, "u16", u16::MAX as u64);
     edge_scaling::<u32>(&mut out, "u32", 1 << 30);
+    signed_negative::<i8>(&mut out, &mut rng, "i8", 40);
+    signed_negative::<i16>(&mut out, &mut rng, "i16", 100);
+    signed_negative::<i32>(&mut out, &mut rng, "i32", 100);
+    signed_negative::<i64>(&mut out, &mut rng, "i64", 100);
     merge_into_empty::<u8>(&mut out, "u8");
     merge_into_empty::<u32>(&mut out, "u32");
     merge_into_empty::<u64>(&mut out, "u64");
